@@ -32,9 +32,9 @@ func CheckC08(l *Lab, verifDir string) int {
 	data := func(n int, key uint64) Sym { return SymData(GenStream(key, n)) }
 	session := []Sym{f.SymHS(true), f.SymTC("good", ""), f.SymTA(), f.SymCC(f.H1.Addr()), data(100, 1), SymKA(), data(5000, 2), SymClose()}
 	seqs := map[string][]Sym{
-		"session": session,
-		"setup":   session[:4],
-		"big":     {f.SymHS(true), f.SymTC("good", ""), f.SymTA(), f.SymCC(f.H1.Addr()), data(4090-10, 3), data(4096-10, 4), data(8192-10, 5), data(65535, 6), SymClose()},
+		"session":  session,
+		"setup":    session[:4],
+		"big":      {f.SymHS(true), f.SymTC("good", ""), f.SymTA(), f.SymCC(f.H1.Addr()), data(4090-10, 3), data(4096-10, 4), data(8192-10, 5), data(65535, 6), SymClose()},
 		"big4x40k": {f.SymHS(true), f.SymTC("good", ""), f.SymTA(), f.SymCC(f.H1.Addr()), data(40000, 21), data(40000, 22), data(40000, 23), data(40000, 24), SymClose()},
 		"small100": func() []Sym {
 			s := append([]Sym(nil), session[:4]...)
@@ -141,6 +141,19 @@ func CheckC08(l *Lab, verifDir string) int {
 			}
 		}
 		off += len(p.Wire)
+	}
+	// a setup packet delivered in three fragments, then a quiet period of 6.5 s in the open
+	// channel, then the rest of the session: what reassembly set up must not outlive the packet
+	{
+		sb := pktBounds(sess)
+		o := 0
+		for pi, p := range setup[:2] {
+			cuts := append([]int{o + 3, o + 9}, sb...)
+			for _, tr := range Transports() {
+				jobs = append(jobs, c08Job{name: "session", cls: fmt.Sprintf("2-cut-in-packet-%d-then-quiet-period", pi), syms: sess, d: Delivery{MsgCuts: cuts, PauseAfterWrite: len(setup) + 2, PauseMs: 6500}, tr: tr})
+			}
+			o += len(p.Wire)
+		}
 	}
 	// unframeable streams
 	prefixes := [][]Sym{{}, session[:1], session[:2], session[:4], session[:5]}
